@@ -1,6 +1,7 @@
 /- every op of the lifecycle model preserves the global invariants (C14 / C10) -/
 import NngModel.Proofs.LifeGlobal
 import NngModel.Spec.Life
+import NngModel.Generated.C14
 namespace Nng.LifeModel
 open Nng.Life Nng.Generated
 
